@@ -760,12 +760,15 @@ func calAndSetEventNode(e *Expr) {
 		)
 		return func(ctx *Ctx, params []Value) (res Value, err error) {
 			res, err = op(ctx, params)
+			// params may be the evaluator's reused two-slot buffer: report a copy
+			paramsCopy := make([]Value, len(params))
+			copy(paramsCopy, params)
 			e.EventChan <- Event{
 				EventType: OpExecEvent,
 				Data: OpEventData{
 					IsFastOp: isFastOp,
 					OpName:   name,
-					Params:   params,
+					Params:   paramsCopy,
 					Res:      res,
 					Err:      err,
 				},
